@@ -59,6 +59,8 @@ static_assert(sizeof(ZixBTreeNode) <= ZIX_BTREE_PAGE_SIZE, "");
 static_assert(sizeof(ZixBTreeNode) >=
                 ZIX_BTREE_PAGE_SIZE - 2U * sizeof(ZixBTreeNode*),
               "");
+static_assert(ZIX_BTREE_INODE_VALS >= 3U, "Page too small for a B-tree node");
+static_assert(ZIX_BTREE_LEAF_VALS <= UINT16_MAX, "Page too large for ZixBTreeIter");
 #endif
 
 static ZixBTreeNode*
@@ -69,6 +71,8 @@ zix_btree_node_new(ZixAllocator* const allocator, const bool leaf)
   assert(sizeof(ZixBTreeNode) <= ZIX_BTREE_PAGE_SIZE);
   assert(sizeof(ZixBTreeNode) >=
          ZIX_BTREE_PAGE_SIZE - 2U * sizeof(ZixBTreeNode*));
+  assert(ZIX_BTREE_INODE_VALS >= 3U);
+  assert(ZIX_BTREE_LEAF_VALS <= UINT16_MAX);
 #endif
 
   ZixBTreeNode* const node = (ZixBTreeNode*)zix_aligned_alloc(
